@@ -778,6 +778,10 @@ class Ctx:
         for c in cs:
             if isinstance(c, bool):
                 c = z3.BoolVal(c)
+            elif self.ex.normalize:
+                # sum-of-monomials normal form: equal polynomial constraints become
+                # syntactically equal, which the solver's preprocessing exploits
+                c = z3.simplify(c, som=True)
             self.pc.append(c)
             self.pc_vars.append(_term_vars(c))
             self.pc_def.append(defines)
@@ -998,6 +1002,11 @@ class Ctx:
             neg = z3.BoolVal(True)
         else:
             neg = z3.Not(_zbool(c))
+            if self.ex.normalize:
+                neg = z3.simplify(neg, som=True)
+                if z3.is_false(neg):
+                    self.stats.proved += 1
+                    return True
         r = self._check(neg)
         if r == z3.unsat:
             self.stats.proved += 1
@@ -1037,7 +1046,10 @@ class Ctx:
         if z3.is_int_value(den) or z3.is_rational_value(den):
             zero = den.as_fraction() == 0 if z3.is_rational_value(den) else den.as_long() == 0
             if zero:
-                raise ZeroDivisionError("division by zero (concrete)")
+                # numpy floats give inf/nan here, Python numbers raise: either way
+                # outside the real-arithmetic model -> the path is assumed away (counted)
+                self.stats.div_assumptions += 1
+                raise PathAbort()
             return
         pol = self.ex.div_policy
         if pol == "raise":
@@ -1066,7 +1078,7 @@ class Ctx:
 
     def sqrt(self, x):
         xz = _real(x.z)
-        xs = z3.simplify(xz)
+        xs = z3.simplify(xz, som=True)
         if z3.is_rational_value(xs):
             fr = xs.as_fraction()
             if fr >= 0:
@@ -1100,6 +1112,9 @@ class Ctx:
         den_s = z3.simplify(den)
         if z3.is_rational_value(den_s) or z3.is_int_value(den_s) or not self.ex.poly_division:
             return Sym(num / den)
+        # sum-of-monomials normal form: equal polynomials share one quotient variable
+        num = z3.simplify(num, som=True)
+        den = z3.simplify(den, som=True)
         key = ("quot", num.get_id(), den.get_id())
         hit = self.ex._sqrt_cache.get(key)
         if hit is not None and hit[1].eq(num) and hit[2].eq(den):
@@ -1146,7 +1161,7 @@ class Explorer:
 
     def __init__(self, query_timeout_ms=20000, max_paths=200000, wall_budget_s=None,
                  div_policy="assume", sqrt_policy="assume", stop_on_violation=True,
-                 relax_ints=False, side_timeout_ms=2000, poly_division=True):
+                 relax_ints=False, side_timeout_ms=2000, poly_division=True, normalize=True):
         self.solver = z3.Solver()
         self.solver.set("timeout", query_timeout_ms)
         self.query_timeout_ms = query_timeout_ms
@@ -1160,6 +1175,7 @@ class Explorer:
         self.stop_on_violation = stop_on_violation
         self.relax_ints = relax_ints
         self.poly_division = poly_division
+        self.normalize = normalize
         self._work = []
         self._prefix = []
         self._sqrt_cache = {}
